@@ -261,10 +261,11 @@ func (m *model) allowedLevels(own int, now time.Time) (map[int]bool, bool) {
 		if n > 0 {
 			rms = math.Sqrt(sum / float64(n))
 		}
-		for v := int(math.Floor(rms - 1e-9)); v <= int(math.Ceil(rms+1e-9)); v++ {
-			if v < 0 {
-				continue
-			}
+		lo, hi := int(math.Floor(rms)), int(math.Ceil(rms))
+		if math.Abs(rms-math.Round(rms)) < 1e-9 {
+			lo, hi = int(math.Round(rms)), int(math.Round(rms))
+		}
+		for v := lo; v <= hi; v++ {
 			a := v
 			if own > a {
 				a = own
